@@ -87,6 +87,84 @@ def check_full(col, case, sub='full'):
                         'complete=%r' % (fmt, v[1], v[2]), case)
 
 
+def check_wrapper(col, case, sub='wrapper'):
+    """The same claim through InspectWrapper (read / iterate / pipe-like
+    source, empty reads included): the inspector it settles on reports the
+    declared size."""
+    from vcheck import imggen
+    fmt, params = case['fmt'], case['params']
+    img = imggen.build(fmt, params)
+    if img.vsize is None or not img.clean:
+        raise core.HarnessError('non-well-formed image %r' % (img.brief(),))
+    sched = case['schedule']
+    mode = case.get('mode', 'read')
+    (fm, fs), _s, got, err, w = imgdrive.drive_wrapper(
+        img.data, sched, mode, sample=bool(case.get('poll')))
+    col.case(sub, (fmt, sorted(params.items(), key=repr), sched, mode,
+                   case.get('poll')), img.vsize not in (0,),
+             ['fmt=' + fmt, 'mode=' + mode,
+              'poll' if case.get('poll') else 'nopoll'],
+             {'fmt': fmt, 'params': params, 'mode': mode,
+              'declared': img.vsize})
+    if err is not None or got != img.data:
+        raise Violation(sub, '%s: reading the image through InspectWrapper '
+                        '(%s) failed: error=%r' % (fmt, mode, err), case)
+    if fm != fmt:
+        raise Violation(sub, '%s image detected as %r' % (fmt, fm), case)
+    v = _vsize(w.format)
+    if v != img.vsize:
+        raise Violation(
+            sub, '%s: virtual_size through InspectWrapper (%s, schedule %s) '
+            'is %r but the image declares %d'
+            % (fmt, mode, sched if sched[0] == 'fixed' else sched[1][:8], v,
+               img.vsize), case)
+
+
+def wrapper_search(col, seed, max_examples, fmts):
+    from hypothesis import strategies as st
+    from vcheck import imggen, imgstrat
+
+    @st.composite
+    def cases(draw):
+        fmt = draw(st.sampled_from(fmts))
+        if fmt == 'vhdx':
+            params = draw(imgstrat.vhdx_params(conformant=True))
+        else:
+            params = draw(imgstrat.params_for(fmt, safe=True))
+        img = imggen.build(fmt, params)
+        sched = draw(chunking.schedules(len(img.data), img.boundaries,
+                                        allow_tiny=len(img.data) <= 20000))
+        return {'fmt': fmt, 'params': params, 'schedule': sched,
+                'mode': draw(st.sampled_from(['read', 'iter', 'short'])),
+                'poll': draw(st.booleans())}
+    core.run_given(col, cases(), lambda c, case: check_wrapper(c, case),
+                   seed, max_examples)
+
+
+def wrapper_sweep(col):
+    """Deterministic: each format's default image, three sources, with an
+    empty read first / in the middle / none, polled and not."""
+    from vcheck import imggen
+    sub = 'wrapper'
+    for fmt in imggen.FORMATS:
+        if fmt == 'qed':
+            continue
+        img = imggen.build(fmt, {})
+        n = len(img.data)
+        cut = min(n // 2, 700)
+        for sched in (['sizes', [n]], ['sizes', [0, n]],
+                      ['sizes', [cut, 0, n - cut]], ['fixed', 512],
+                      ['sizes', [cut, n - cut, 0]]):
+            if n / 512 > 2000 and sched == ['fixed', 512]:
+                sched = ['fixed', 65536]
+            for mode in ('read', 'iter', 'short'):
+                for poll in (False, True):
+                    check_wrapper(col, {'fmt': fmt, 'params': {},
+                                        'schedule': sched, 'mode': mode,
+                                        'poll': poll}, sub)
+    col.exhaustive.setdefault(sub, True)
+
+
 def _size_class(v):
     if v == 0:
         return '0'
@@ -302,6 +380,12 @@ def tasks(tier, seed):
             out.append(Task('full', full,
                             seed=core.derive_seed(seed, ID, 'full', fmts, i),
                             max_examples=ex, fmts=fmts))
+    out.append(Task('wrapper', wrapper_sweep))
+    for i in range(2 if tier == 'quick' else 6):
+        out.append(Task('wrapper', wrapper_search,
+                        seed=core.derive_seed(seed, ID, 'wrap', i),
+                        max_examples=150 if tier == 'quick' else 1500,
+                        fmts=SMALL + ('iso', 'vhdx')))
     for fmts, ex, shards in pplan:
         for i in range(shards):
             out.append(Task('prefix', prefix_random,
@@ -315,5 +399,7 @@ def replay(rec):
     col = core.Collector()
     if 'cut' in case:
         check_prefix(col, case)
+    elif rec.get('sub') == 'wrapper' or 'mode' in case:
+        check_wrapper(col, case)
     else:
         check_full(col, case)
